@@ -4,12 +4,7 @@ import vlib
 import gen
 
 MANIFEST = {
-    "text": "Coq theorems over a model of disassemble()/InstructionStream::try_from for ALL non-empty byte strings (any length up "
-            "to 2^32): totality, one entry per byte, byte-exact re-encoding, push immediates never instructions, a PUSH truncated by "
-            "any number of bytes tolerated, unassigned bytes INVALID. The opcode byte table inside the model is regenerated from the "
-            "Rust match arms and impl Opcode blocks on every run (table round trip proved by complete enumeration of the 256 byte "
-            "values); the hand-written state machine is tied to the code by a correspondence run (model vs try_from on the same "
-            "inputs, evaluated in Coq) and the property predicate is also evaluated directly on the implementation's output.",
+    "text": "Coq theorems over a model of disassemble()/InstructionStream::try_from for ALL non-empty byte strings (any length up to 2^32): totality, one entry per byte, byte-exact re-encoding, push immediates never instructions, a PUSH truncated by any number of bytes tolerated, unassigned bytes INVALID. The opcode byte table inside the model is regenerated from the Rust match arms and impl Opcode blocks on every run (table round trip proved by complete enumeration of the 256 byte values); the hand-written state machine is tied to the code by a correspondence run (model vs try_from on the same inputs, evaluated in Coq) and the property predicate is also evaluated directly on the implementation's output. The entry point is anchored on every run (T1b: try_from(&[u8]) is disassemble + the re-encoding assertion with no other early return; the only size limit is u32::MAX), and inputs of 24575 / 24576 / 24577 / 32768 / 65536 bytes are checked for acceptance in both tiers.",
     "note": "Trusted: Coq kernel + vm_compute; translator T1/T5 (regex over the match arms, impl Opcode blocks, constructor guards); "
             "the harness and generators bound how well model = code is known. Byte strings longer than 2^32 are outside the theorem "
             "(the code rejects them with BytecodeTooLarge).",
@@ -103,6 +98,20 @@ def check(ctx):
         lines = out.strip().split("\n") if out.strip() else []
         ok = rc == 0 and len(lines) == len(keys)
         ctx.oblige("harness:disasm", "correspondence", ok, "rc=%s lines=%d/%d %s" % (rc, len(lines), len(keys), err[-300:]))
+        # totality at the size limit of the property's domain (24 KiB) and just around it: these inputs are checked for
+        # acceptance and length only here (the model side of inputs this long is evaluated in the thorough tier)
+        if not ctx.replay_in:
+            sizes = [24575, 24576, 24577, 32768, 65536]
+            edge = [bytes(ctx.rng.randrange(256) for _ in range(n)).hex() for n in sizes]
+            rc2, out2, err2 = vlib.run_harness(hb, ["disasm"], "\n".join(edge) + "\n")
+            l2 = out2.strip().split("\n") if out2.strip() else []
+            ctx.oblige("harness:disasm-size-limit", "correspondence", rc2 == 0 and len(l2) == len(edge), "rc=%s %s" % (rc2, err2[-200:]))
+            for k, n, l in zip(edge, sizes, l2):
+                if "(ROk " not in l[:min(len(l), 4 * n + 200)]:
+                    ctx.violate("C10:10:len%d" % n, "a non-empty byte string of %d bytes was rejected: %s" % (n, l[-160:]),
+                                {"input_hex": k, "code": 10, "meaning": CODES[10], "length": n,
+                                 "how": "printf '%s\\n' <input_hex> | build/harness-target/debug/slxh disasm"})
+            ctx.coverage["size_limit_inputs"] = sizes
         if ok:
             outcome = collections.Counter(l.split("(", 1)[1].split(" ")[0] if "(" in l else l for l in lines)
             # big cases get their own shards (the model's `ops ++ [i]` is quadratic)
